@@ -367,7 +367,7 @@ Proof.
   2:{ intros H; inversion H; subst. exists fr. split; assumption. }
   unfold in_local. rewrite Hs. change (Nat.ltb in_local_threshold (length [fr])) with false. cbn iota.
   destruct (require_model core env (get_warn [fr]) src asg prefix (c_module c)) as [[tgt w0] e0].
-  intros H; inversion H; subst. exists fr. simpl. split; assumption.
+  intros H; inversion H; subst. exists fr. simpl. split; [first [reflexivity | assumption] | assumption].
 Qed.
 
 Theorem bottom_frame_stays_clean : forall forms c out,
@@ -383,7 +383,8 @@ Proof.
     - simpl. destruct Hb as [fr [Hs Hm]]. unfold do_pragma. rewrite Hs. eexists. simpl. split; [reflexivity | exact Hm].
     - simpl. exact Hb.
     - simpl. exact Hb.
-    - destruct (local_scope_popped body (c, out) Hne) as [S _]. simpl in S.
+    - pose proof (local_scope_popped body (c, out) Hne) as HS. cbv zeta in HS. destruct HS as [S _].
+      change (fst (c, out)) with c in S.
       destruct Hb as [fr [Hs Hm]]. exists fr. rewrite S. split; assumption. }
   destruct (run_item core env i (c, out)) as [[c1 out1] raised]. simpl in Hb1.
   destruct raised; simpl; apply IH; exact Hb1.
@@ -451,7 +452,7 @@ Theorem defmacro_other_names core c n m n' :
 Proof.
   intros Hne. rewrite !lookup_documented. unfold documented_order, do_defmacro.
   destruct (in_local c).
-  - unfold set_top_macros. destruct (c_stack c) as [|fr st]; [reflexivity|]. simpl.
+  - unfold set_top_macros. destruct (c_stack c) as [|fr st] eqn:Es; [rewrite Es; reflexivity|]. simpl.
     destruct (ns_get n' (c_extra c)); [reflexivity|]. rewrite ns_get_set_other by exact Hne. reflexivity.
   - simpl. destruct (ns_get n' (c_extra c)); [reflexivity|].
     induction (map f_macros (c_stack c)) as [|d r IH]; simpl.
